@@ -105,6 +105,10 @@ pub struct Plan {
     /// R7: after a call that failed on an injected fault, call again on the continuing (healthy) tape
     #[serde(default)]
     pub recover: bool,
+    /// independence of consecutive calls: a second call on the continuing tape must equal a first call on a
+    /// fresh tape started at the same position (nothing may leak from one call into the next)
+    #[serde(default)]
+    pub twice: bool,
 }
 
 #[derive(Clone, Debug, PartialEq, Eq)]
@@ -638,6 +642,28 @@ fn exec_one(p: &Plan, out: &mut RunOut, replay_plan: Option<serde_json::Value>) 
     out.add("rng:calls-next_u64", tape.by_method[1]);
     out.add("rng:calls-fill_bytes", tape.by_method[2]);
     judge(p, api, &p.tape, &o, out, &|| replay_plan.clone());
+    if p.twice && o.faults.is_empty() && matches!(o.res, Res::Val { .. }) && p.tape.fail_at_call.is_none() && p.tape.fail_at_byte.is_none() {
+        let consumed = tape.bytes;
+        let res_second = call(p, api, &mut tape);
+        let bytes_second = tape.bytes - consumed;
+        let mut fresh = Tape::new(&p.tape);
+        fresh.skip(consumed);
+        let res_fresh = call(p, api, &mut fresh);
+        out.ev(&format!("twice/{}/{}", res_second.kind(), res_fresh.kind()));
+        out.count("probe:consecutive-call-independence-checked");
+        let same = match (&res_second, &res_fresh) {
+            (Res::Val { words: a, .. }, Res::Val { words: b, .. }) => a == b && bytes_second == fresh.bytes,
+            (a, b) => a.kind() == b.kind(),
+        };
+        if !same {
+            out.viol(
+                "C19/call-dependence",
+                sig(p, &format!("{:?}:second-call-depends-on-first", api)),
+                format!("a second call on the continuing stream returned {:?} ({} bytes) but the same call on a fresh stream at that position returns {:?} ({} bytes)", res_second.kind(), bytes_second, res_fresh.kind(), fresh.bytes),
+                replay_plan.clone(),
+            );
+        }
+    }
     if p.recover && !o.faults.is_empty() && o.faults.iter().all(|f| f.id != FAULT_EXHAUSTED) {
         // the RNG has recovered: the same API on the same (continuing) tape must now succeed
         let before = tape.faults_fired.len();
@@ -1002,6 +1028,7 @@ impl TypedScenario for Script {
                 enumerate_failures: t == 1 && b % 7 == 0,
                 healthy_from: None,
                 recover: false,
+                twice: false,
             };
         }
         // seeded part
@@ -1051,6 +1078,7 @@ impl TypedScenario for Script {
             enumerate_failures: r.chance(1, 8),
             healthy_from: None,
             recover: false,
+            twice: false,
         };
         let fixed_bits = 64 * limbs as u32;
         match api {
@@ -1140,6 +1168,7 @@ impl TypedScenario for Script {
                 p.tape = gen_plain_tape(&mut r, 8 * p.limbs as u64);
             }
         }
+        p.twice = r.chance(1, 6);
         // faults
         if p.front != Front::Infallible {
             match r.below(10) {
@@ -1582,6 +1611,7 @@ fn exec_stat(p: &StatPlan, out: &mut RunOut) {
                 enumerate_failures: false,
                 healthy_from: None,
                 recover: false,
+                twice: false,
             };
             let cfgsig = format!("{:?}", p.cfg).replace(' ', "");
             let mut checked = 0u64;
@@ -1668,15 +1698,25 @@ fn exec_stat(p: &StatPlan, out: &mut RunOut) {
                 enumerate_failures: false,
                 healthy_from: None,
                 recover: false,
+                twice: false,
             };
             let cfgsig = format!("{:?}", p.cfg).replace(' ', "");
             let nl = *limbs;
             let mut or_acc = vec![0u64; nl];
             let mut and_acc = vec![u64::MAX; nl];
+            // same-position correlation between limbs: every bit of w_i XOR w_j must take both values too
+            let mut xor_or = vec![0u64; nl * nl];
+            let mut xor_and = vec![u64::MAX; nl * nl];
             let mut n = 0u64;
             for _ in 0..*per {
                 match call(&q, api, &mut tape) {
                     Res::Val { words, .. } if words.len() == nl => {
+                        for i in 0..nl {
+                            for j in 0..i {
+                                xor_or[i * nl + j] |= words[i] ^ words[j];
+                                xor_and[i * nl + j] &= words[i] ^ words[j];
+                            }
+                        }
                         for i in 0..nl {
                             or_acc[i] |= words[i];
                             and_acc[i] &= words[i];
@@ -1713,6 +1753,23 @@ fn exec_stat(p: &StatPlan, out: &mut RunOut) {
                             "C19/never-produced",
                             format!("stat:{}", cfgsig),
                             format!("{:?} (limbs={}): bit {} of limb {} was {} in all {} draws from a uniform stream", api, nl, b, i, if never0 { "1" } else { "0" }, per),
+                            None,
+                        );
+                        return;
+                    }
+                }
+            }
+            for i in 0..nl {
+                for j in 0..i {
+                    let (o, a) = (xor_or[i * nl + j], xor_and[i * nl + j]);
+                    let stuck = !o | a; // bits of the XOR that never were 1, or never were 0
+                    let stuck = if *kind == 4 && j == 0 { stuck & !0 } else { stuck };
+                    if stuck != 0 {
+                        let b = stuck.trailing_zeros();
+                        out.viol(
+                            "C19/bias",
+                            format!("stat:{}", cfgsig),
+                            format!("{:?} (limbs={}): bit {} of limb {} and of limb {} were always {} in {} draws — the limbs are correlated", api, nl, b, j, i, if (a >> b) & 1 == 1 { "different" } else { "equal" }, per),
                             None,
                         );
                         return;
@@ -1765,6 +1822,7 @@ fn exec_stat(p: &StatPlan, out: &mut RunOut) {
                 enumerate_failures: false,
                 healthy_from: None,
                 recover: false,
+                twice: false,
             };
             // cell k = [ceil(k m / 8), ceil((k+1) m / 8))
             let bounds: Vec<num_bigint::BigUint> = (0..=8u32).map(|k| (&mb * k + 7u32) / 8u32).collect();
@@ -1818,6 +1876,7 @@ fn exec_stat(p: &StatPlan, out: &mut RunOut) {
                 enumerate_failures: false,
                 healthy_from: None,
                 recover: false,
+                twice: false,
             };
             run!(mv, vec![1.0 / mv as f64; mv], format!("ConstMontyForm::random modulus_id={modulus_id} m={mv}"), |t: &mut Tape| {
                 match call(&q, Api::ConstMonty, t) {
